@@ -15,6 +15,9 @@ and the native `opaque` option are the translator's own `Tr` class):
                `radius_test_leaf` / `neighbors_exact` / `accept_leaf` …, instead of a stub)
   kind 'expr'  the (sub-)expression whose source text is `text`, inside `func`
   `count`      required number of occurrences of that text in the function (default 1)
+  kind 'nargs' (round 4) the single call of `call` (e.g. `np.zeros`) inside `func`: the number of its
+               arguments beyond the first positional one, keywords included, as a `Nat` constant
+               (`np.zeros(shape)` -> 0: numpy's default float64 buffer; `np.zeros(shape, dtype=…)` -> 1)
 
 If the text no longer occurs (operator, operand or constant edited) the leaf is untranslatable and
 run_check reports the broken obligation.  Wish (notes/C19.md): move both kinds into py2lean.py.
@@ -39,12 +42,22 @@ def _install():
     base = m.translate_leaf
 
     def translate_leaf(spec):
-        if spec.get('kind') not in ('cmp', 'expr'):
+        if spec.get('kind') not in ('cmp', 'expr', 'nargs'):
             return base(spec)
         text = open(os.path.join(m.REPO_SRC, spec['file'])).read()
         fn = m.find_func(ast.parse(text), spec['func'])
         if fn is None:
             raise m.Untranslatable(f"anchor {spec['func']} not found")
+        if spec['kind'] == 'nargs':
+            calls = [n for n in ast.walk(fn) if isinstance(n, ast.Call) and ast.unparse(n.func) == spec['call']]
+            if len(calls) != 1:
+                raise m.Untranslatable(f"expected 1 call of `{spec['call']}` in {spec['func']}, found {len(calls)}")
+            c = calls[0]
+            if not c.args or any(isinstance(a, ast.Starred) for a in c.args) or any(k.arg is None for k in c.keywords):
+                raise m.Untranslatable(f"`{spec['call']}` is not called with a plain first argument")
+            if spec['ret'] != 'Nat':
+                raise m.Untranslatable('an nargs leaf returns Nat')
+            return f'({len(c.args) - 1 + len(c.keywords)} : Nat)'
         if spec['kind'] == 'cmp' and 'lhs' in spec:
             # the comparison between two given operands, *whatever its operator*: an edited
             # operator still translates, and the theorems that use the leaf stop to hold
@@ -105,4 +118,7 @@ LEAVES = [
     # width of the pre-allocated table of the chunked branch
     dict(name='rdmWidth', file=_F, func='get_searchlight_RDMs', kind='expr',
          text='n_conds * (n_conds - 1) // 2', params={'n_conds': 'Nat'}, ret='Nat'),
+    # round 4: element type of that pre-allocated table = numpy's default (no dtype / order argument)
+    dict(name='bufferExtraArgs', file=_F, func='get_searchlight_RDMs', kind='nargs', call='np.zeros',
+         params={}, ret='Nat'),
 ]
